@@ -346,7 +346,7 @@ type UReq struct {
 	What string `json:"what"` // nil | unknown | foreign (unknown id on another address) | stopped | stopped-foreign
 }
 
-func runUnknown(c UCase) error {
+func runUnknown(c UCase) (firstErr error) {
 	if len(c.Reqs) < 1 || len(c.Reqs) > 12 {
 		return nil
 	}
@@ -373,6 +373,23 @@ func runUnknown(c UCase) error {
 			pid = actor.NewPID(e.Address(), "gone/1")
 		case "stopped-foreign":
 			pid = actor.NewPID("10.1.2.3:4000", "gone/1")
+		case "foreign-namesake":
+			// an actor on ANOTHER node that happens to have the id of a live local actor: the local one
+			// is not the target (it must still answer at the end)
+			pid = actor.NewPID("10.1.2.3:4000", by.ID)
+		case "response":
+			// the temporary PID behind an outstanding Request is registered, but it is no actor: nobody
+			// will ever handle Stopped for it, and the request is not the stop request's business
+			silent := e.SpawnFunc(func(*actor.Context) {}, "silent", actor.WithID(fmt.Sprint(i)))
+			rs := e.Request(silent, "no answer", 100*time.Millisecond)
+			pid = rs.PID()
+			defer func(i int) {
+				v, rerr := rs.Result()
+				if rerr == nil && firstErr == nil {
+					firstErr = fmt.Errorf("request %d: nobody replied to the request, and a stop request was made for its response PID: Result() returned %T %v", i, v, v)
+				}
+				e.Poison(silent)
+			}(i)
 		default:
 			return nil
 		}
@@ -412,7 +429,7 @@ func TestStopUnknown(t *testing.T) {
 		for i := 0; i < n; i++ {
 			c.Reqs = append(c.Reqs, UReq{
 				How:  rapid.SampledFrom([]string{"stop", "poison", "poisonctx"}).Draw(t, "how"),
-				What: rapid.SampledFrom([]string{"nil", "unknown", "foreign", "stopped", "stopped-foreign"}).Draw(t, "what"),
+				What: rapid.SampledFrom([]string{"nil", "unknown", "foreign", "stopped", "stopped-foreign", "foreign-namesake", "response", "response"}).Draw(t, "what"),
 			})
 		}
 		st.Begin(c)
